@@ -38,6 +38,7 @@
 #include "quarantine.hpp"
 #include "soils.hpp"
 #include "generator_provider.hpp"
+#include "verif_hooks.hpp"
 
 #include <vector>
 
@@ -308,6 +309,10 @@ public:
         // Soil step is the same as simulation step.
         if (soil_pool_)
             soil_pool_->next_step(step);
+#ifdef POPS_CORE_VERIF
+        if (soil_pool_)
+            POPS_VERIF_ACTION(step, "soil_next_step");
+#endif
         // removal of dispersers due to lethal temperatures
         if (config_.use_lethal_temperature && config_.lethal_schedule()[step]) {
             int lethal_step =
@@ -321,6 +326,9 @@ public:
                 RandomNumberGeneratorProvider<Generator>>
                 remove(this->environment(), config_.lethal_temperature);
             remove.action(host_pool, generator_provider_);
+#ifdef POPS_CORE_VERIF
+            POPS_VERIF_ACTION(lethal_step, "lethal_temperature");
+#endif
         }
         // removal of percentage of dispersers
         if (config_.use_survival_rate && config_.survival_rate_schedule()[step]) {
@@ -329,6 +337,9 @@ public:
             SurvivalRateAction<StandardMultiHostPool, IntegerRaster, FloatRaster>
                 survival(survival_rates[survival_step]);
             survival.action(host_pool, generator_provider_);
+#ifdef POPS_CORE_VERIF
+            POPS_VERIF_ACTION(survival_step, "survival_rate");
+#endif
         }
         // actual spread
         if (config_.spread_schedule()[step]) {
@@ -354,7 +365,13 @@ public:
                     soil_pool_, config_.dispersers_to_soils_percentage);
             }
             spread_action.action(host_pool, pest_pool, generator_provider_);
+#ifdef POPS_CORE_VERIF
+            POPS_VERIF_ACTION(step, "spread");
+#endif
             host_pool.step_forward(step);
+#ifdef POPS_CORE_VERIF
+            POPS_VERIF_ACTION(step, "step_forward");
+#endif
             if (config_.use_overpopulation_movements) {
                 MoveOverpopulatedPests<
                     StandardMultiHostPool,
@@ -370,6 +387,9 @@ public:
                         config_.rows,
                         config_.cols};
                 move_pest.action(host_pool, pest_pool, generator_provider_);
+#ifdef POPS_CORE_VERIF
+                POPS_VERIF_ACTION(step, "overpopulation");
+#endif
             }
             if (config_.use_movements) {
                 HostMovement<
@@ -384,6 +404,9 @@ public:
                         movements,
                         config_.movement_schedule};
                 last_index = host_movement.action(host_pool, generator_provider_);
+#ifdef POPS_CORE_VERIF
+                POPS_VERIF_ACTION(static_cast<int>(last_index), "movement");
+#endif
             }
         }
         // treatments
@@ -391,6 +414,9 @@ public:
             for (auto& host : host_pool.host_pools()) {
                 treatments.manage(step, *host);
             }
+#ifdef POPS_CORE_VERIF
+            POPS_VERIF_ACTION(step, "treatments");
+#endif
         }
         if (config_.use_mortality && config_.mortality_schedule()[step]) {
             // expectation is that mortality tracker is of length (1/mortality_rate
@@ -398,18 +424,27 @@ public:
             // TODO: died.zero(); should be done by the caller if needed, document!
             Mortality<StandardMultiHostPool, IntegerRaster, FloatRaster> mortality;
             mortality.action(host_pool);
+#ifdef POPS_CORE_VERIF
+            POPS_VERIF_ACTION(step, "mortality");
+#endif
         }
         // compute spread rate
         if (config_.use_spreadrates && config_.spread_rate_schedule()[step]) {
             unsigned rates_step =
                 simulation_step_to_action_step(config_.spread_rate_schedule(), step);
             spread_rate.action(host_pool, rates_step);
+#ifdef POPS_CORE_VERIF
+            POPS_VERIF_ACTION(static_cast<int>(rates_step), "spread_rate");
+#endif
         }
         // compute quarantine escape
         if (config_.use_quarantine && config_.quarantine_schedule()[step]) {
             unsigned action_step =
                 simulation_step_to_action_step(config_.quarantine_schedule(), step);
             quarantine.action(host_pool, quarantine_areas, action_step);
+#ifdef POPS_CORE_VERIF
+            POPS_VERIF_ACTION(static_cast<int>(action_step), "quarantine");
+#endif
         }
     }
 
